@@ -261,6 +261,8 @@ class Faulty:
             last = self.log.ev[-1] if self.log.ev else None
             nid = self.name.split(':')[0]
             inherited = bool(last is not None and last[2] == 'IN' and last[3] == nid and not last[6])
+            if inherited:
+                inherited = (self.log.strip_stack[-1] if self.log.strip_stack else None) or False
         if self.defer:
             import asyncio
             self.pending_bodies = getattr(self, 'pending_bodies', {})
